@@ -177,6 +177,63 @@ func (n *native) binFor(pkg string) (string, error) {
 	return bin, nil
 }
 
+// raceConfirm runs a thread harness natively under the race detector (free-running goroutines,
+// the replay file repeated `runs` times) and reports whether a DATA RACE involving both functions
+// of the key was observed.
+func (n *native) raceConfirm(pkg, file, key string, runs int) (bool, string) {
+	bin, ok := n.bins[pkg+"#race"]
+	if !ok {
+		t0 := time.Now()
+		ov := struct{ Replace map[string]string }{n.real}
+		data, _ := json.Marshal(ov)
+		ovPath := filepath.Join(n.dir, "overlay.json")
+		os.WriteFile(ovPath, data, 0o644)
+		bin = filepath.Join(n.dir, pkg+".race.test")
+		cmd := exec.Command("go", "test", "-race", "-c", "-vet=off", "-tags", "verif", "-overlay", ovPath, "-o", bin, ".")
+		cmd.Dir = pkgDir(pkg)
+		cmd.Env = append(os.Environ(), "GOFLAGS=-mod=mod", "GOPROXY=off", "GOSUMDB=off", "GOTOOLCHAIN=local")
+		if out, err := cmd.CombinedOutput(); err != nil {
+			return false, fmt.Sprintf("race build failed: %v %s", err, lastLines(string(out), 3))
+		}
+		n.bins[pkg+"#race"] = bin
+		n.Build += time.Since(t0).Seconds()
+	}
+	list := filepath.Join(n.dir, fmt.Sprintf("racelist-%d.txt", time.Now().UnixNano()))
+	var sb strings.Builder
+	for i := 0; i < runs; i++ {
+		sb.WriteString(file + "\n")
+	}
+	os.WriteFile(list, []byte(sb.String()), 0o644)
+	cmd := exec.Command(bin, "-test.run", "^TestVerifReplay$", "-test.timeout", "4m")
+	cmd.Dir = pkgDir(pkg)
+	cmd.Env = append(os.Environ(), "VERIF_REPLAY_LIST="+list, "GORACE=halt_on_error=0")
+	out, _ := cmd.CombinedOutput()
+	fs := strings.Split(strings.TrimPrefix(key, "KF-race:"), "|")
+	nat := func(f string) string {
+		// engine closure names f$2 are f.func2 natively
+		if i := strings.Index(f, "$"); i >= 0 {
+			return f[:i] + ".func" + f[i+1:]
+		}
+		return f
+	}
+	blocks := strings.Split(string(out), "WARNING: DATA RACE")
+	for _, b := range blocks[1:] {
+		if e := strings.Index(b, "=================="); e >= 0 {
+			b = b[:e]
+		}
+		hit := true
+		for _, f := range fs {
+			if !strings.Contains(b, "."+nat(f)+"(") && !strings.Contains(b, nat(f)) {
+				hit = false
+			}
+		}
+		if hit {
+			return true, fmt.Sprintf("observed under go test -race (%d data race reports in %d runs)", len(blocks)-1, runs)
+		}
+	}
+	return false, fmt.Sprintf("not observed under go test -race in %d runs (%d other reports)", runs, len(blocks)-1)
+}
+
 type replayResult struct {
 	Obs      []string
 	Failed   string // assertion message
@@ -382,6 +439,7 @@ func runProperty(prop string, ps *propSpec, opt options) int {
 	}
 
 	ev := newEvidence(prop, opt)
+	raceSeenNative, raceHow := map[string]bool{}, map[string]string{}
 	exit := 0
 	problems := []string{}
 	var violationLines, knownLines []string
@@ -482,10 +540,13 @@ func runProperty(prop string, ps *propSpec, opt options) int {
 				v := vfiles[p]
 				h2 := &symex.HarnessRun{Name: hs.Name, Entry: entry, Params: params, Unwind: h.Unwind, MaxSteps: h.MaxSteps, MaxDecisions: h.MaxDecisions,
 					QueryTimeout: h.QueryTimeout, IncrTimeout: h.IncrTimeout, Preemptions: h.Preemptions, Fixed: v.Inputs, FixedSched: append([]int{}, v.Schedule...), RaceCheck: h.RaceCheck, MaxPaths: 64}
+				applyEngineParams(h2, params)
+				h2.MaxPaths = 64
+				h2.ContinueAfterRace = true
 				prog.Explore(h2, 1, opt.solver)
 				confirmed := false
 				for _, v2 := range h2.Violations {
-					if v2.Msg == v.Msg {
+					if v2.Msg == v.Msg || (v.Kind == "race" && v2.Kind == "race" && fmt.Sprint(v2.Known) == fmt.Sprint(v.Known)) {
 						confirmed = true
 					}
 				}
@@ -493,6 +554,19 @@ func runProperty(prop string, ps *propSpec, opt options) int {
 				if !confirmed {
 					problems = append(problems, "UNCONFIRMED counterexample (engine-side replay with fixed inputs does not fail): "+desc+" replay="+p)
 					continue
+				}
+				if v.Kind == "race" && len(v.Known) == 1 {
+					okNat, how := raceSeenNative[v.Known[0]], raceHow[v.Known[0]]
+					if how == "" {
+						okNat, how = nat.raceConfirm(hs.Pkg, p, v.Known[0], 150)
+						raceSeenNative[v.Known[0]], raceHow[v.Known[0]] = okNat, how
+						fmt.Printf("  race %s: %s\n", v.Known[0], how)
+						ev.RaceNative = append(ev.RaceNative, v.Known[0]+": "+how)
+					}
+					if _, listed := activeKF[v.Known[0]]; !listed && !okNat {
+						problems = append(problems, "UNCONFIRMED data race (happens-before violation in the engine, "+how+"): "+desc+" replay="+p)
+						continue
+					}
 				}
 				if !v.Unlisted && len(v.Known) > 0 {
 					ok := true
